@@ -51,7 +51,7 @@ func vc08Any(tag string, depth int) (AnyValue, func(out *AnyValue, lbl string)) 
 			}
 		}
 	case 6:
-		n := vChoice(tag+"-arraylen", 3)
+		n := vChoice(tag+"-arraylen", vParam("maxLen")+1)
 		arr := &ArrayValue{}
 		var checks []func(out *AnyValue, lbl string)
 		for i := 0; i < n; i++ {
